@@ -281,8 +281,8 @@ var pureCallees = map[string]bool{
 	"lmdbenv/limitscanner.(*LimitScanner).Key": true, "lmdbenv/limitscanner.(*LimitScanner).Val": true,
 	"lmdbenv/limitscanner.(LimitCursor).IsZero": true,
 	"lmdbenv/strategy.bytesToInt":               true, "lmdbenv/strategy.cmpIntegerLittleEndian": true,
-	"encoding/binary.(littleEndian).Uint32": true, "encoding/binary.(littleEndian).Uint64": true, "encoding/binary.(littleEndian).Uint16": true,
-	"encoding/binary.(bigEndian).Uint64": true, "encoding/binary.(bigEndian).Uint16": true,
+	"(encoding/binary.littleEndian).Uint32": true, "(encoding/binary.littleEndian).Uint64": true, "(encoding/binary.littleEndian).Uint16": true,
+	"(encoding/binary.bigEndian).Uint64": true, "(encoding/binary.bigEndian).Uint16": true,
 	"lmdbenv/header.getNumExtra": true,
 	"snapshot.expectWT":          true,
 	"csproto.DecodeVarint":       true,
